@@ -165,11 +165,29 @@ def build_experiment(case, limit):
         proto.nodes[n]['label'] = 'n%s' % n
     for a, b in proto.edges():
         proto.edges[a, b]['w'] = a + b
-    gen = ep.FixedNetwork(proto, limit=limit)
+    # the generator is observed through a SUBCLASS (class-level overrides): instance-level wrappers would travel with a
+    # copy of the object and call back into the original, hiding what a copied generator does to the quota
+    base = ep.FixedNetwork
     if case['family'] == 'generated':
         # a random-network ensemble as the experiment's generator: every run must work on a network generated from
         # THIS run's parameters only (the prototype clauses do not apply: proto stays an unused dummy)
-        gen = {'ER': ep.ERNetwork, 'BA': ep.BANetwork, 'PLC': ep.PLCNetwork}[case['generator']](limit=limit)
+        base = {'ER': ep.ERNetwork, 'BA': ep.BANetwork, 'PLC': ep.PLCNetwork}[case['generator']]
+
+    class Counting(base):
+        def generate(self):
+            g = super().generate()
+            ctl.calls.append('gen1' if g is not None else 'gen0')
+            return g
+
+        def _generate(self, params):
+            ctl.hit('generate')
+            ctl.genparams = repr(sorted(params.items(), key=repr))      # what this run's network is generated from
+            g = super()._generate(params)
+            ctl.generated += 1
+            return g
+    if case.get('frozen') and case['family'] != 'generated':
+        proto = networkx.freeze(proto)          # a read-only reference network is a legal prototype too
+    gen = Counting(limit=limit) if case['family'] == 'generated' else Counting(proto, limit=limit)
     dcls = ep.StochasticDynamics if case['dynamics'] == 'stochastic' else ep.SynchronousDynamics
     dyn = dcls(top, gen)
 
@@ -192,22 +210,6 @@ def build_experiment(case, limit):
     wrap(top, 'results', 'results')
     wrap(top, 'tearDown', 'procteardown')
     wrap(dyn, 'tearDown', 'torndown', after=True)
-    orig_generate = gen.generate
-
-    def generate():
-        g = orig_generate()
-        ctl.calls.append('gen1' if g is not None else 'gen0')
-        return g
-    gen.generate = generate
-    orig__generate = gen._generate
-
-    def _generate(params):
-        ctl.hit('generate')
-        ctl.genparams = repr(sorted(params.items(), key=repr))      # what this run's network is generated from
-        g = orig__generate(params)
-        ctl.generated += 1
-        return g
-    gen._generate = _generate
     return dyn, ctl, leaves, proto, top, gen
 
 
@@ -387,6 +389,7 @@ class H(Harness):
             procs.append(rnd.choice(['SIR', 'SIS', 'SIR_FixedRecovery', 'SIR_FixedRecovery']))
             case['procs'] = procs
         case['runs'] = [self.gen_run(rnd, case) for _ in range(rnd.randrange(2, 7))]
+        case['frozen'] = rnd.random() < 0.2
         return case
 
     def exhaustive_cases(self, tier):
